@@ -10,9 +10,14 @@ MC_Loads == (1 :> ("P" :> "ok" @@ "D" :> "ok")) @@ (2 :> ("P" :> "err" @@ "D" :>
             @@ (10 :> ("P" :> "ok" @@ "D" :> "ok"))
 \* object 10: a page at the bottom of the deepest chain of /Parent links the page tree supports (16 ancestors, loaded eagerly one inside the other)
 MC_TypesOf == (1 :> {"P", "D"}) @@ (2 :> {"P", "D"}) @@ (3 :> {"P", "D"}) @@ (8 :> {"P", "D"}) @@ (9 :> {"VM", "VR"}) @@ (10 :> {"P"})
+\* objects 30 and 31: /Pages nodes that name each other as /Parent
+MC_Partner == [o \in {1, 2, 3, 8, 9, 10, 30, 31} |-> IF o = 30 THEN 31 ELSE IF o = 31 THEN 30 ELSE 0]
+MC_LoadsC == MC_Loads @@ (30 :> ("P" :> "ok" @@ "D" :> "ok")) @@ (31 :> ("P" :> "ok" @@ "D" :> "ok"))
+MC_TypesOfC == MC_TypesOf @@ (30 :> {"P", "D"}) @@ (31 :> {"P"})
 AsBuilt == {"stream_cache_key_ignores_filters"}
+AsBuiltC == {"stream_cache_key_ignores_filters", "nested_value_cached"}
 Ideal(k) == Uncached(path[k].call, path[k].arg, path[k].typ)
-CaseJson == [ocOn |-> ocOn, scOn |-> scOn, dev |-> Dev,
+CaseJson == [ocOn |-> ocOn, scOn |-> scOn, tol |-> tol, dev |-> Dev,
              path |-> [k \in 1..Len(path) |-> [call |-> path[k].call, arg |-> path[k].arg, typ |-> path[k].typ,
                                                ideal |-> Ideal(k), mech |-> path[k].ans]]]
 Emit == ncalls = MaxCalls => PrintT(<<"CASE", ToJson(CaseJson)>>)
